@@ -25,17 +25,23 @@ theorem offsetSliceLsb0_visits_mirror (k : Key) (n : Nat) (hpos : negStep k = fa
         = ((Py.rangeList (Py.sliceIndices k.start k.stop (k.step.getD 1) n).1
                          (Py.sliceIndices k.start k.stop (k.step.getD 1) n).2.1 (k.step.getD 1)).reverse.map
             fun i => (n : Int) - 1 - i) := by
-  sorry
+  have hst := stepOf_pos k hpos h0
+  refine ⟨_, offsetSliceLsb0_pos k n hpos h0, rfl, ?_⟩
+  have hr := mirror_renorm k n hst
+  have hm := mirror_rangeList k n hst
+  unfold stepOf at hr hm
+  simp only [hr]
+  exact hm
 
 /-! ### `s[a:b:c]`, `del s[a:b:c]`, `s[a:b:c] = v` -/
 
 /- Full statement (fails on the unchanged tree for negative steps, finding `lsb0-negative-step`):
      ∀ l k, getSliceOp .lsb0 l k = (getSliceOp .msb0 l.reverse k).map List.reverse                        -/
 /-- `s[a:b:c]` under lsb0 is the reversed msb0 slice of the reversed bits, for every start, stop, length and
-    every step that is not negative (step 0 raises in both modes). -/
-theorem getslice_lsb0_mirror_partial (l : Bits) (k : Key) (hpos : negStep k = false) :
+    every positive step (step 0 raises in both modes: `slice_step_zero_raises`). -/
+theorem getslice_lsb0_mirror_partial (l : Bits) (k : Key) (hpos : negStep k = false) (h0 : k.step ≠ some 0) :
     getSliceOp .lsb0 l k = (getSliceOp .msb0 l.reverse k).map List.reverse := by
-  sorry
+  exact getslice_mirror l k hpos h0
 
 /-- … and with a negative step the unchanged code does something else. -/
 theorem getslice_lsb0_negStep_witness :
@@ -44,15 +50,22 @@ theorem getslice_lsb0_negStep_witness :
     (getSliceOp .msb0 [true, false, false].reverse ⟨none, some 0, some (-1)⟩).map List.reverse = .ok [false, true] := by
   decide
 
+/-- A zero step raises in both modes, for all three slice operations (the exception class is not part of the
+    property: ValueError from bitarray under msb0, the failing `assert s.step < 0` of `indices` under lsb0). -/
+theorem slice_step_zero_raises (m : Mode) (l v : Bits) (a b : Option Int) :
+    (∃ e, getSliceOp m l ⟨a, b, some 0⟩ = .error e) ∧ (∃ e, delSliceOp m l ⟨a, b, some 0⟩ = .error e) ∧
+    (∃ e, setSliceBits m l ⟨a, b, some 0⟩ v = .error e) := by
+  exact step_zero_raises m l v a b
+
 /-- The two-argument `BitStore.getslice(start, stop)` used by every internal `_slice`: mirror for all arguments. -/
 theorem getslice2_lsb0_mirror (l : Bits) (a b : Option Int) :
     getslice .lsb0 l a b = (getslice .msb0 l.reverse a b).map List.reverse := by
-  sorry
+  exact getslice2_mirror l a b
 
 /- Full statement: ∀ l k, delSliceOp .lsb0 l k = (delSliceOp .msb0 l.reverse k).map List.reverse           -/
-theorem delslice_lsb0_mirror_partial (l : Bits) (k : Key) (hpos : negStep k = false) :
+theorem delslice_lsb0_mirror_partial (l : Bits) (k : Key) (hpos : negStep k = false) (h0 : k.step ≠ some 0) :
     delSliceOp .lsb0 l k = (delSliceOp .msb0 l.reverse k).map List.reverse := by
-  sorry
+  exact delslice_mirror l k hpos h0
 
 theorem delslice_lsb0_negStep_witness :
     negStep ⟨none, some 0, some (-1)⟩ = true ∧
@@ -64,9 +77,9 @@ theorem delslice_lsb0_negStep_witness :
 /-- Slice assignment (resizing for a step-less / step-1 slice, same-length for an extended one, ValueError
     otherwise) mirrors for every non-negative step, unless a resizing assignment has its stop before its start. -/
 theorem setslice_lsb0_mirror_partial (l : Bits) (k : Key) (v : Bits)
-    (hpos : negStep k = false) (hinv : invertedAssign k l.length = false) :
+    (hpos : negStep k = false) (h0 : k.step ≠ some 0) (hinv : invertedAssign k l.length = false) :
     setSliceBits .lsb0 l k v = (setSliceBits .msb0 l.reverse k v.reverse).map List.reverse := by
-  sorry
+  exact setslice_mirror l k v hpos h0 hinv
 
 /-- Assignment into an inverted (empty) range lands at the wrong end … -/
 theorem setslice_lsb0_invertedAssign_witness :
@@ -88,40 +101,73 @@ theorem setslice_lsb0_negStep_witness :
 
 /-- `s[i]` under lsb0 is `reversed(s)[i]` for every integer `i` — including which `i` raise. -/
 theorem getitem_lsb0_mirror (l : Bits) (i : Int) : getItem .lsb0 l i = getItem .msb0 l.reverse i := by
-  sorry
+  exact getindex_mirror l i
 
 /-- in-range form: bit `i` counted from the right. -/
 theorem getitem_lsb0_nonneg (l : Bits) (i : Nat) (h : i < l.length) :
     getItem .lsb0 l (i : Int) = .ok (l[l.length - 1 - i]'(by omega)) := by
-  sorry
+  have h1 : -(i : Int) - 1 < 0 := by omega
+  have h2 : ¬ (-(i : Int) - 1 + (l.length : Int) < 0) := by omega
+  have h3 : (-(i : Int) - 1 + (l.length : Int)).toNat = l.length - 1 - i := by omega
+  have h4 : l.length - 1 - i < l.length := by omega
+  simp only [getItem, getindex, pyGetIdx, Py.getIndex, h1, if_true, h2, if_false, h3, List.getElem?_eq_getElem h4]
 
 theorem getitem_lsb0_err_iff (l : Bits) (i : Int) :
     getItem .lsb0 l i = .error .index ↔ (i < -(l.length : Int) ∨ (l.length : Int) ≤ i) := by
-  sorry
+  rw [getitem_lsb0_mirror]
+  have := C01.getIndex_err_iff l.reverse i
+  simpa [getItem, getindex, pyGetIdx] using this
 
 theorem setitem_lsb0_mirror (l : Bits) (i v : Int) :
     setItemInt .lsb0 l i v = (setItemInt .msb0 l.reverse i v).map List.reverse := by
-  sorry
+  unfold setItemInt
+  split
+  · exact setitemIdx_mirror l i false
+  · split
+    · exact setitemIdx_mirror l i true
+    · rfl
 
 /-- `s[i] = <bitstring>` (replaces one bit by any number of bits). -/
 theorem setitembits_lsb0_mirror (l : Bits) (i : Int) (v : Bits) :
     setItemBits .lsb0 l i v = (setItemBits .msb0 l.reverse i v.reverse).map List.reverse := by
-  sorry
+  unfold setItemBits
+  simp only [List.length_reverse]
+  generalize (if i < 0 then i + (l.length : Int) else i) = q
+  by_cases hq : q < 0 ∨ (l.length : Int) ≤ q
+  · simp only [hq, if_true]; rfl
+  · simp only [hq, if_false]
+    exact setslice_mirror l _ v rfl (by simp) (invertedAssign_false_of_le q (q + 1) l.length (by omega) (by omega))
 
 theorem delitem_lsb0_mirror (l : Bits) (i : Int) :
     delItem .lsb0 l i = (delItem .msb0 l.reverse i).map List.reverse := by
-  sorry
+  exact delitemIdx_mirror l i
 
 /-- `invert(pos)` for no position, one position, a list or a range of positions (partial application on an
     out-of-range position raises in both modes). -/
 theorem invert_lsb0_mirror (l : Bits) (P : PosSpec) :
     invertOp .lsb0 l P = (invertOp .msb0 l.reverse P).map List.reverse := by
-  sorry
+  cases P with
+  | all => simp [invertOp, Except.map, List.map_reverse]
+  | one i => exact invertMany_mirror [i] l
+  | many ps => exact invertMany_mirror ps l
+  | range a b c =>
+    simp only [invertOp]
+    split
+    · rfl
+    · exact invertMany_mirror _ l
 
 /- Full statement: ∀ l b P, setOp .lsb0 l b P = (setOp .msb0 l.reverse b P).map List.reverse               -/
 theorem set_lsb0_mirror_partial (l : Bits) (b : Bool) (P : PosSpec) (h : setRange P = false) :
     setOp .lsb0 l b P = (setOp .msb0 l.reverse b P).map List.reverse := by
-  sorry
+  cases P with
+  | all =>
+    simp only [setOp, List.length_reverse]
+    split
+    · rfl
+    · simp [Except.map]
+  | one i => exact setMany_mirror b [i] l
+  | many ps => exact setMany_mirror b ps l
+  | range a b' c => simp [setRange] at h
 
 /-- `set(1, range(0, 2))` works under msb0 and raises (AttributeError, on `int._bitarray`) under lsb0. -/
 theorem set_lsb0_setRange_witness :
@@ -131,10 +177,22 @@ theorem set_lsb0_setRange_witness :
   decide
 
 theorem all_lsb0_mirror (l : Bits) (b : Bool) (P : PosSpec) : allOp .lsb0 l b P = allOp .msb0 l.reverse b P := by
-  sorry
+  unfold allOp
+  cases posList P with
+  | error e => rfl
+  | ok o =>
+    cases o with
+    | none => simp [List.all_reverse]
+    | some ps => exact allAt_mirror b ps l
 
 theorem any_lsb0_mirror (l : Bits) (b : Bool) (P : PosSpec) : anyOp .lsb0 l b P = anyOp .msb0 l.reverse b P := by
-  sorry
+  unfold anyOp
+  cases posList P with
+  | error e => rfl
+  | ok o =>
+    cases o with
+    | none => simp [List.any_reverse]
+    | some ps => exact anyAt_mirror b ps l
 
 /-! ### non-vacuity: the hypotheses are satisfiable by non-trivial values, and the claims are not about the empty list -/
 example : negStep ⟨some (-5), some 7, some 2⟩ = false ∧ invertedAssign ⟨some 1, some 4, none⟩ 6 = false := by decide
